@@ -5,7 +5,7 @@ import DimodProofs.FeasCqm
 Model: `DimodModel/Feasibility.lean` (namespace `Feas`):
 * the definition — `activity`, `violation`, `satisfied`, `feasible`, `energy`;
 * the per-sample implementation — `iterConstraintData`, `iterViolations`, `checkFeasible`
-  (`constrained.py`);
+  (`constrained.py`), and `iterConstraintDataL` / `iterViolationsL` with the `labels=` argument;
 * the vectorised implementation — `fromSamplesCqm` (`SampleSet.from_samples_cqm`) with the
   `is_satisfied.all()` short-cut over the whole `np.empty` array (`garbage` = the content of the
   columns not yet written) and the `soft` label set;
@@ -36,6 +36,40 @@ theorem perSample_eq_def (atol rtol : Rat) (cs : List CEval) (r : Nat) :
   intro c _
   simp only [Function.comp, datum_violation, datum_activity]
   rfl
+
+/-- **The `labels=` argument** of `iter_constraint_data` / `iter_violations` (`Feas.selectCons`).
+    * `labels=None` (the default) is the plain call: every constraint, in model order.
+    * An explicit **empty** selection visits nothing (it is *not* the default).
+    * Known labels `ls`: exactly those constraints are visited, **in the order given**; each visited constraint is a
+      constraint of the model (with distinct labels: *the* one with that label), so by `perSample_eq_def` on the selection
+      every field yielded is the definition's; the three modes of `iter_violations` are those of the plain call on the
+      selection.
+    * A label that is no constraint ends the iteration with `ValueError`. -/
+theorem perSample_labels (cs : List CEval) (hnd : (cs.map (·.label)).Nodup) (r : Nat) :
+    (iterConstraintDataL none cs r = (iterConstraintData cs r, false)
+      ∧ ∀ skip clip, iterViolationsL skip clip none cs r = (iterViolations skip clip cs r, false))
+    ∧ (iterConstraintDataL (some []) cs r = ([], false) ∧ ∀ skip clip, iterViolationsL skip clip (some []) cs r = ([], false))
+    ∧ (∀ ls, (∀ l ∈ ls, ∃ c ∈ cs, c.label = l) →
+        ∃ sel, sel.map (·.label) = ls ∧ (∀ c ∈ sel, c ∈ cs ∧ ∀ c' ∈ cs, c'.label = c.label → c' = c)
+          ∧ iterConstraintDataL (some ls) cs r = (iterConstraintData sel r, false)
+          ∧ (iterConstraintData sel r).map (fun d => (d.label, d.lhsEnergy, d.rhsEnergy, d.sense, d.activity, d.violation))
+              = sel.map (fun c => (c.label, c.lhs r, c.rhs, c.sense, activity c r, violation c r))
+          ∧ ∀ skip clip, iterViolationsL skip clip (some ls) cs r = (iterViolations skip clip sel r, false))
+    ∧ (∀ ls, (∃ l ∈ ls, ∀ c ∈ cs, c.label ≠ l) →
+        (iterConstraintDataL (some ls) cs r).2 = true ∧ ∀ skip clip, (iterViolationsL skip clip (some ls) cs r).2 = true) := by
+  refine ⟨⟨rfl, fun _ _ => rfl⟩, ⟨rfl, fun skip clip => ?_⟩, ?_, ?_⟩
+  · unfold iterViolationsL selectCons selectGo iterViolations iterConstraintData
+    cases skip <;> cases clip <;> rfl
+  · intro ls hls
+    obtain ⟨a1, a2, a3⟩ := selectGo_known cs ls hls
+    refine ⟨(selectGo cs ls).1, a2, fun c hc => ⟨a3 c hc, fun c' hc' h => selectGo_unique cs hnd ls c hc c' hc' h⟩, ?_,
+      (perSample_eq_def 0 0 _ r).1, fun skip clip => ?_⟩
+    · show (iterConstraintData (selectGo cs ls).1 r, (selectGo cs ls).2) = _
+      rw [a1]
+    · show (iterViolations skip clip (selectGo cs ls).1 r, (selectGo cs ls).2) = _
+      rw [a1]
+  · intro ls hls
+    exact ⟨selectGo_unknown cs ls hls, fun _ _ => selectGo_unknown cs ls hls⟩
 
 /-- Vectorised path = definition, whatever the uninitialised part of `is_satisfied` holds: the
     short-cut `not is_satisfied.all()` never changes a result (when it skips a soft constraint, that
@@ -127,5 +161,12 @@ example : checkFeasibleWith false 0 0 demo 0 = false ∧ feasible 0 0 demo 0 = t
 /-- D2: before the repair an expression without variables evaluated to 0 instead of its offset -/
 example : exprEnergyWith false { qb := { off := 3 } } (fun _ => 0) = 0
     ∧ exprEnergy { qb := { off := 3 } } (fun _ => 0) = 3 := by decide +kernel
+
+/-- `labels=`: order given, repeats, the empty selection, an unknown label -/
+example : (iterViolationsL false false (some [.str "hard", .str "soft", .str "hard"]) demo 1)
+      = ([(.str "hard", 1), (.str "soft", 0), (.str "hard", 1)], false)
+    ∧ (iterViolationsL false false (some []) demo 1) = ([], false)
+    ∧ (iterViolationsL false false none demo 1).1.length = 3
+    ∧ (iterConstraintDataL (some [.str "soft", .str "nope", .str "hard"]) demo 1).2 = true := by decide +kernel
 
 end C08
